@@ -86,8 +86,12 @@ RLElem(k) == CASE k = "F4" -> <<63,128,0,0>> [] k = "F8" -> <<63,240,0,0,0,0,0,0
                [] k = "U2" -> Pos8(258) [] OTHER -> <<255,255,255,255,255,255,255,255>>
 RLKinds == <<"B", "A", "J", "BOOL", "I1", "U2", "I4", "F4", "U8", "F8", "I8">>
 RLOf(k) == LET cs == RLCounts(k) IN [i \in 1..Len(cs) |-> [k |-> k, n |-> cs[i], x |-> RLElem(k)]]
-RLCases == Flatten([i \in 1..Len(RLKinds) |-> RLOf(RLKinds[i])])
-RLHeader(c) == Header(c.k, c.n * Width(c.k))
+(* localized strings: the 2-byte LSH counts towards the length field, so the text lengths that put the
+   payload on a length-byte boundary are 2 less than for the other kinds *)
+LocCounts == <<252, 253, 254, 255, 65532, 65533, 65534, 65535, 16777212, 16777213>>
+RLLoc == [i \in 1..Len(LocCounts) |-> [k |-> "LOC", n |-> LocCounts[i], x |-> 65]]
+RLCases == Flatten([i \in 1..Len(RLKinds) |-> RLOf(RLKinds[i])]) \o RLLoc
+RLHeader(c) == Header(c.k, IF c.k = "LOC" THEN c.n + 2 ELSE c.n * Width(c.k))
 RLUnit(c) == ElemBytes(c.k, c.x)
 
 (* ---- self-consistency of the transcription over the enumerated space ---- *)
